@@ -27,3 +27,24 @@
 //@|        r.1.tcp_task().client_loop.rx.0.chan == r.0.tx.chan,
 //@|        listener matches Some(l) ==> r.1.tcp_task().states() == l.log(), listener is None ==> r.1.tcp_task().states().len() == 0,
 //@closure 0| || -> (l: Box<dyn crate::client::listener::Listener<ClientState>>) ensures l.log().len() == 0
+    use crate::decode::DecodeLevel;
+    use crate::tcp::tls::client::spawn_tls_channel;
+// [C18,C20] the legacy spawning constructors: queue size and decode level go into the options, everything else is passed on unchanged
+//@fn rodbus/src/client/mod.rs | spawn_tcp_client_task | tags=C18,C20
+//@|    requires listener matches Some(l) ==> l.log().len() == 0,
+//@exit 0| assert(options.decode_level == decode_level && options.max_queued_requests == max_queued_requests);
+//@closure 0| || -> (l: Box<dyn crate::client::listener::Listener<ClientState>>) ensures l.log().len() == 0
+//@fn rodbus/src/client/mod.rs | spawn_tcp_client_task_with_options | tags=C18,C20
+//@|    requires listener matches Some(l) ==> l.log().len() == 0,
+//@closure 0| || -> (l: Box<dyn crate::client::listener::Listener<ClientState>>) ensures l.log().len() == 0
+//@fn rodbus/src/client/mod.rs | spawn_tls_client_task | tags=C09,C18,C20
+//@|    requires listener matches Some(l) ==> l.log().len() == 0,
+//@exit 0| assert(options.decode_level == decode_level && options.max_queued_requests == max_queued_requests);
+//@closure 0| || -> (l: Box<dyn crate::client::listener::Listener<ClientState>>) ensures l.log().len() == 0
+    use crate::client::listener::PortState as PortState__;
+//@fn rodbus/src/client/mod.rs | spawn_rtu_client_task | tags=C18,C20
+//@|    requires listener matches Some(l) ==> l.log().len() == 0,
+//@fn rodbus/src/client/mod.rs | create_rtu_client_task | tags=C13,C18,C20
+//@|    ensures !r.1.is_tcp_task(), r.1.serial_task().wf(), r.1.serial_task().client_loop.decode == decode, !r.1.serial_task().client_loop.enabled,
+//@|        r.1.serial_task().client_loop.rx.0.chan == r.0.tx.chan,
+//@|        listener matches Some(l) ==> r.1.serial_task().states() == l.log(), listener is None ==> r.1.serial_task().states().len() == 0,
